@@ -89,137 +89,10 @@ def rule_chart_wraps(ctx: Ctx, out: Collector) -> None:
         out.bad('ER-2', cons, ctx.p.loc(unit, unit.node), 'an Exception raised by the entrypoint (not by an event manager) can '
                                                           'escape PipelineChart.run instead of being returned as the error result',
                 path_text(g, res[0]))
-    # (a') user-supplied constructors (artifact store, event managers: the context creates them) run inside a try of run()
-    tries = [n for n in FuncEnv.of(ctx.p, unit).own_nodes() if isinstance(n, ast.Try)]
-    protected = {id(x) for t in tries for st in t.body for x in ast.walk(st)}
-    unprotected = []
-
-    def constructs_user_classes(u, depth: int = 0, seen=None) -> bool:
-        """the unit (transitively: helpers, constructors of in-repo classes) calls get_instance, i.e. a user-supplied class"""
-        seen = seen if seen is not None else set()
-        if u.fid in seen or depth > 5:
-            return False
-        seen.add(u.fid)
-        env = FuncEnv.of(ctx.p, u)
-        for c in env.own_nodes():
-            if not isinstance(c, ast.Call):
-                continue
-            for t in env.resolve_call(c):
-                if t[0] == 'func':
-                    if t[1].name == 'get_instance' or constructs_user_classes(t[1], depth + 1, seen):
-                        return True
-                elif t[0] == 'class' and isinstance(t[1], ClassInfo):
-                    init = ctx.p.lookup_method(t[1], '__init__')
-                    if init is not None and constructs_user_classes(init, depth + 1, seen):
-                        return True
-        return False
-
-    class _Site:
-        def __init__(self, chain):
-            self._chain = chain
-
-        class inst:
-            pass
-    own_env = FuncEnv.of(ctx.p, unit)
-    for c in own_env.own_nodes():
-        if not isinstance(c, ast.Call) or id(c) in protected:
-            continue
-        for t in own_env.resolve_call(c):
-            hit = False
-            if t[0] == 'func' and (t[1].name == 'get_instance' or constructs_user_classes(t[1])):
-                hit = True
-            elif t[0] == 'class' and isinstance(t[1], ClassInfo):
-                init = ctx.p.lookup_method(t[1], '__init__')
-                hit = init is not None and constructs_user_classes(init)
-            if hit:
-                unprotected.append((None, c))
-    cons = cons_base + '::user-supplied constructors run inside the try of run() [collaborators constructed under try]'
-    if not unprotected:
-        out.ok('ER-2', cons, ctx.p.loc(unit, unit.node), 'the context (artifact store, event managers) is created under `except Exception`')
-    else:
-        ev, site = unprotected[0]
-        out.bad('ER-2', cons, ctx.p.loc(unit, site), f'`{unparse(site)[:60]}` constructs user-supplied collaborators (artifact store, event '
-                f'managers) outside every try of run(): a failing constructor - the documented artifact_store=FileSystemArtifactStore '
-                f'needs a directory - makes run() raise instead of returning PipelineResult(error=...)',
-                [])
-    # (b) handlers: exactly Exception, returning PipelineResult(value=None, error=<caught>)
-    # the handlers of run() itself, as written (a handler the fault model cannot reach is still a promise of the code)
-    own = FuncEnv.of(ctx.p, unit)
-    hnodes = [n for n in own.own_nodes() if isinstance(n, ast.ExceptHandler)]
-    hev = {id(h.node): h for h in g.events('handler') if h.inst.parent is None}
-    if not hnodes:
-        out.bad('ER-2', cons_base + '::handler', ctx.p.loc(unit, unit.node), 'PipelineChart.run has no exception handler')
-
-    class _H:
-        def __init__(self, node):
-            self.node = node
-
-        def where(self):
-            return hev[id(self.node)].where() if id(self.node) in hev else ctx.p.loc(unit, self.node)
-    hs = [_H(n) for n in hnodes]
-    seen_cons = {}
-    for h in hs:
-        hn = h.node
-        tname = (dotted(hn.type) or '') if hn.type is not None else '<bare>'
-        seen_cons[tname] = seen_cons.get(tname, 0) + 1
-        cons = cons_base + f'::except {tname}' + (f' #{seen_cons[tname]}' if seen_cons[tname] > 1 else '')
-        if tname != 'Exception':
-            out.bad('ER-2', cons, h.where(), f'PipelineChart.run catches {tname} instead of exactly Exception: '
-                                             f'{"cancellation is converted into an error result" if tname in ("<bare>", "BaseException") else "other Exceptions escape"}')
-            continue
-        rets = [n for n in ast.walk(ast.Module(body=hn.body, type_ignores=[])) if isinstance(n, ast.Return)]
-        raises = [n for n in ast.walk(ast.Module(body=hn.body, type_ignores=[])) if isinstance(n, ast.Raise)]
-        ok = bool(rets) and not raises
-        detail = ''
-        from ..engine import follow_values
-        terms = []
-        for r in rets:
-            if r.value is None:
-                terms.append(None)
-                continue
-            for e, i in follow_values(ctx.p, _returned_expr(hn.body, r), g.root_inst):
-                terms.append(sym.term(ctx.p, e, i))
-        for t in terms:
-            if not (isinstance(t, tuple) and t[0] == 'new' and t[1].endswith('PipelineResult')):
-                ok = False
-                detail = f'returns {sym.show(t) if t else None}'
-                continue
-            kws = dict(t[3])
-            if kws.get('value') != ('const', None):
-                ok = False
-                detail = 'the error result carries a value'
-            err = kws.get('error')
-            lexical = any(isinstance(c, ast.Call) and any(k.arg == 'error' and isinstance(k.value, ast.Name) and k.value.id == hn.name
-                                                        for k in c.keywords)
-                          for st in hn.body for c in ast.walk(st))
-            if not (isinstance(err, tuple) and err[0] == 'caught' and err[2] == hn.name) and not lexical:
-                ok = False
-                detail = 'the error result does not carry the caught exception'
-        if ok:
-            out.ok('ER-2', cons, h.where(), 'returns PipelineResult(value=None, error=<the caught exception>)')
-        else:
-            out.bad('ER-2', cons, h.where(), f'the Exception handler of PipelineChart.run does not return '
-                                             f'PipelineResult(value=None, error=<the caught exception>): {detail or "re-raises / no return"}')
-    # (c) success result carries error=None and the awaited entrypoint value
-    succ = []
-    for n in ast.walk(unit.node):
-        if isinstance(n, ast.Return) and n.value is not None and not any(n in ast.walk(h.node) for h in hs):
-            succ.append(n)
-    from ..engine import follow_values
-    succ_terms = []
-    for r in succ:
-        for e, i in follow_values(ctx.p, _returned_expr(_enclosing_block(unit.node, r), r), g.root_inst):
-            succ_terms.append((r, sym.term(ctx.p, e, i)))
-    for r, t in succ_terms:
-        cons = cons_base + '::success result'
-        if isinstance(t, tuple) and t[0] == 'new' and t[1].endswith('PipelineResult'):
-            kws = dict(t[3])
-            if kws.get('error') == ('const', None) and kws.get('value') is not None and kws.get('value') != ('const', None):
-                out.ok('ER-2', cons, ctx.p.loc(unit, r), 'PipelineResult(value=<entrypoint result>, error=None)')
-            else:
-                out.bad('ER-2', cons, ctx.p.loc(unit, r), 'the success result does not carry (value=<entrypoint result>, error=None)')
-        else:
-            out.bad('ER-2', cons, ctx.p.loc(unit, r), f'run() returns {sym.show(t)}, not a PipelineResult')
+    # (a'), (b), (c): what run() returns in each situation its contract distinguishes (success, failing / cancelled entrypoint,
+    # failing user constructor) is decided over chart worlds - whatever helpers run() is split into
+    from .cw import rule_chart_worlds_result
+    rule_chart_worlds_result(ctx, out)
 
 
 def _returned_expr(block, ret: ast.Return) -> ast.AST:
@@ -482,6 +355,36 @@ def _is_membership_of(env: FuncEnv, e: ast.AST, k: str, cont: str, depth: int = 
     either that test or the constant False (`try: flag = k in cont except TypeError: flag = False`)."""
     if isinstance(e, ast.Compare) and len(e.ops) == 1 and isinstance(e.ops[0], ast.In):
         return text(e.left) == k and text(e.comparators[0]) == cont
+    if isinstance(e, ast.Call) and depth < 2:
+        # a predicate helper: every value it returns is the membership test on its own parameters, or False
+        targets = [t for t in env.resolve_call(e) if t[0] == 'func']
+        if len(targets) != 1 or targets[0][1].is_async:
+            return False
+        h = targets[0][1]
+        a = h.node.args
+        params = [x.arg for x in getattr(a, 'posonlyargs', [])] + [x.arg for x in a.args]
+        if params and params[0] in ('self', 'cls') and not h.is_static:
+            params = params[1:]
+        actual = {pn: text(av) for pn, av in zip(params, e.args) if not isinstance(av, ast.Starred)}
+        actual.update({kw.arg: text(kw.value) for kw in e.keywords if kw.arg})
+        pk = [pn for pn, tv in actual.items() if tv == k]
+        pc = [pn for pn, tv in actual.items() if tv == cont]
+        if len(pk) != 1 or len(pc) != 1:
+            return False
+        henv = FuncEnv.of(env.p, h)
+        if any(d_[0] != 'param' for pn in (pk[0], pc[0]) for d_ in henv.local_defs().get(pn, [])):
+            return False            # a parameter that is rebound is not the caller's value any more
+        tests = 0
+        for n in henv.own_nodes():
+            if isinstance(n, ast.Return):
+                v = n.value
+                if v is None or (isinstance(v, ast.Constant) and not v.value):
+                    continue
+                if _is_membership_of(henv, v, pk[0], pc[0], depth + 1):
+                    tests += 1
+                    continue
+                return False
+        return tests > 0
     if isinstance(e, ast.Name) and depth < 2:
         defs = env.local_defs().get(e.id, [])
         if not defs or not all(d[0] == 'assign' for d in defs):
